@@ -6,6 +6,7 @@
 package c09
 
 import (
+	"seehuhn.de/go/sfnt/cmap"
 	"errors"
 	"fmt"
 	"strings"
@@ -113,4 +114,38 @@ func Gen(run *vlib.Run, seed uint64, tier string) {
 	genSmall(run, r.Fork("f0f6"), tier)
 	genTable(run, r.Fork("table"), tier)
 	genGetSub(run, r.Fork("getsub"), tier)
+}
+
+
+// beyondBMP states "glyph 0 for every unmapped code point" for the 16-bit
+// subtable formats (0, 4, 6), whose specification defines no code above
+// 0xFFFF: every supplementary code point p*0x10000+low, p = 1..16, must look
+// up as glyph 0 - in particular those whose low 16 bits are a mapped code.
+func beyondBMP(sub cmap.Subtable) string {
+	lows := map[uint32]bool{0: true, 0x20: true, 0x41: true, 0xFF: true, 0x100: true, 0xFFFE: true, 0xFFFF: true}
+	switch m := sub.(type) {
+	case cmap.Format4:
+		n := 0
+		for c := range m {
+			lows[uint32(c)] = true
+			if n++; n >= 200 {
+				break
+			}
+		}
+	case *cmap.Format0:
+		for c := uint32(0); c < 256; c++ {
+			lows[c] = true
+		}
+	default:
+		return ""
+	}
+	for low := range lows {
+		for p := uint32(1); p <= 16; p++ {
+			c := p<<16 | low
+			if g := sub.Lookup(rune(c)); g != 0 {
+				return fmt.Sprintf("Lookup(U+%X) = %d on a subtable of a 16-bit format, which defines no code above 0xFFFF (glyph %d is what code 0x%04X maps to)", c, g, sub.Lookup(rune(low)), low)
+			}
+		}
+	}
+	return ""
 }
